@@ -295,6 +295,66 @@ func c03(c *Ctx) {
 		})
 		r.Check(n >= 1, "C03.K1", fi.Name(), "identifier literals found", c.P.Pos(fi.Node().Pos()), itoa(n), "no robust.Id / pb.RobustId literal in the snapshot code (vacuity guard)")
 	}
+	// K3e: what Marshal writes for a field is the field on every path: a local that carries the value has no definition that
+	// is a constant (e.g. "" for some sessions)
+	{
+		info := marshal.Info()
+		n := 0
+		for _, cl := range compositeLitsOfAny(info, marshal.Body(), pathProto) {
+			for _, el := range cl.Elts {
+				kv, ok := el.(*ast.KeyValueExpr)
+				if !ok {
+					continue
+				}
+				vid, ok := ast.Unparen(kv.Value).(*ast.Ident)
+				if !ok {
+					continue
+				}
+				o, isVar := astx.Obj(info, vid).(*types.Var)
+				if !isVar || o.IsField() || o.Parent() == o.Pkg().Scope() {
+					continue
+				}
+				defs := defsOf(info, marshal.Node(), o)
+				if len(defs) < 2 {
+					continue
+				}
+				fromField, constant := false, ""
+				for _, d := range defs {
+					if d == nil {
+						continue
+					}
+					if tv, ok := info.Types[d]; ok && tv.Value != nil {
+						constant = astx.Str(d)
+						continue
+					}
+					ast.Inspect(d, func(m ast.Node) bool {
+						if se, ok := m.(*ast.SelectorExpr); ok {
+							if fv := astx.FieldSel(info, se); fv != nil && fv.Pkg() != nil && strings.HasPrefix(fv.Pkg().Path(), load.ModPath) && fv.Pkg().Path() != pathProto {
+								fromField = true
+							}
+						}
+						return true
+					})
+				}
+				if !fromField {
+					continue
+				}
+				// tri-state encodings (Bool_TRUE / Bool_FALSE for a bool field) are constants by design: only string / numeric carriers
+				if b, ok := o.Type().Underlying().(*types.Basic); !ok || b.Info()&(types.IsString|types.IsNumeric) == 0 || astx.NamedOf(o.Type()) != nil {
+					continue
+				}
+				n++
+				key, _ := kv.Key.(*ast.Ident)
+				kn := "?"
+				if key != nil {
+					kn = key.Name
+				}
+				r.Check(constant == "", "C03.K3", marshal.Name(), "the value written for "+kn+" is the state's value on every path", c.P.Pos(kv.Pos()), "no constant definition of the carrier variable",
+					"the snapshot writer replaces the value of "+kn+" by the constant "+constant+" on some path: the field is lost for those objects on save + load")
+			}
+		}
+		_ = n
+	}
 	// K3b inverse converter pairs
 	type conv struct{ w, r string }
 	table := []conv{
@@ -786,6 +846,12 @@ func (c *Ctx) c03NickIndex() {
 					ast.Inspect(cond.Expr, func(n ast.Node) bool {
 						if se2, isSel := n.(*ast.SelectorExpr); isSel {
 							if fv := astx.FieldSel(info, se2); fv != nil && fv != nickField && fv.Pkg() != nil && fv.Pkg().Path() == pathIrcsrv {
+								extra = astx.Str(cond.Expr)
+							}
+						}
+						// a predicate stronger than "non-empty" (IsValidNickname rejects names that services may use)
+						if call, isCall := n.(*ast.CallExpr); isCall && astx.Builtin(info, call) == "" {
+							if tv, okT := info.Types[call.Fun]; !okT || !tv.IsType() {
 								extra = astx.Str(cond.Expr)
 							}
 						}
